@@ -375,8 +375,9 @@ pub fn gen_impl_trait_default(
                 fn default() -> Self {
                     Self::try_new(#default_value)
                         .unwrap_or_else(|err| {
-                            let tp = #tp;
-                            panic!("\nDefault value for type `{tp}` is invalid.\nERROR: {err:?}\n");
+                            // NOTE: no `let` here: the identifier would be taken for a pattern if
+                            // a constant or static of the same name is in scope of the declaration.
+                            panic!("\nDefault value for type `{}` is invalid.\nERROR: {:?}\n", #tp, err);
                         })
                 }
             }
